@@ -358,7 +358,7 @@ func TestC11(t *testing.T) {
 			"Non-trivial: layout with a package doc, a free-floating comment adjacent to an interface, a comment-less method, a block comment or >= 2 converter interfaces; distinct by setup text.",
 		2400, 40000,
 		func(rt *rapid.T) layoutMeta {
-			f := pg.GenLayoutFile(rt, pg.LayoutProfile{MaxItems: 8, MaxConverters: 3, Comments: true, Unmarked: true, Directives: true})
+			f := pg.GenLayoutFile(rt, pg.LayoutProfile{MaxItems: 8, MaxConverters: 3, Comments: true, Unmarked: true, Directives: true, SameNames: true})
 			m := layoutMeta{}
 			addImportItems(rt, f, &m)
 			m.File = *f
